@@ -93,6 +93,18 @@ pub fn inputs(thorough: bool) -> Vec<Input> {
             v.push(Input { key: format!("long-run|{cname}|lead={lead}"), src: format!("//{}{run}\n@compute @workgroup_size(1) fn main() {{}}\n", "x".repeat(lead)) });
         }
     }
+    // WGSL items named like the items the generator emits around the source (type and value namespaces are separate in
+    // Rust: a struct `SOURCE` and the constant `SOURCE` coexist)
+    for (what, src) in [
+        ("struct-SOURCE", "struct SOURCE { a: vec4<f32> };\n@group(0) @binding(0) var<uniform> u: SOURCE;\n@compute @workgroup_size(1) fn main() { let x = u.a; }\n"),
+        ("struct-create_shader_module", "struct create_shader_module { a: vec4<f32> };\n@group(0) @binding(0) var<uniform> u: create_shader_module;\n@compute @workgroup_size(1) fn main() { let x = u.a; }\n"),
+        ("var-SOURCE", "@group(0) @binding(0) var<uniform> SOURCE: vec4<f32>;\n@compute @workgroup_size(1) fn main() { let x = SOURCE.x; }\n"),
+        ("entry-SOURCE", "@compute @workgroup_size(1) fn SOURCE() { }\n"),
+        ("struct-member-SOURCE", "struct S { SOURCE: vec4<f32>, source: f32 };\n@group(0) @binding(0) var<uniform> u: S;\n@compute @workgroup_size(1) fn main() { let x = u.SOURCE; }\n"),
+        ("vertex-struct-SOURCE", "struct SOURCE { @location(0) p: vec4<f32> };\n@vertex fn vs_main(v: SOURCE) -> @builtin(position) vec4<f32> { return v.p; }\n"),
+    ] {
+        v.push(Input { key: format!("named|{what}"), src: format!("/* \"q\" \\ {{}} */\n{src}") });
+    }
     // non-ASCII identifiers
     for id in ["\u{e9}t\u{e9}", "\u{4e2d}\u{6587}", "a\u{301}b", "\u{394}x", "\u{10400}z"] {
         v.push(Input { key: format!("ident|{}", esc(id)), src: format!("struct {id}S {{ {id}: f32 }};\n@group(0) @binding(0) var<uniform> {id}_v: {id}S;\n@compute @workgroup_size(1) fn {id}_main() {{ let {id}_l = {id}_v.{id}; }}\n") });
